@@ -22,7 +22,12 @@ subprocess.run(['git', '-C', '/repo', 'worktree', 'remove', '--force', wt], capt
 subprocess.run(['git', '-C', '/repo', 'worktree', 'add', '-q', '--detach', wt, 'HEAD'], check=True)
 out = {}
 try:
-    subprocess.run(['git', '-C', wt, 'apply', os.path.join(d, 'patch.diff')], check=True)
+    pf = os.path.join(d, 'patch.diff')
+    if subprocess.run(['git', '-C', wt, 'apply', pf], capture_output=True).returncode != 0:
+        # the tree has moved on since the change was filed (e.g. a later fix added a build.yaml entry next to the one
+        # the change adds): retry with less context; the change itself is applied unmodified or not at all
+        subprocess.run(['git', '-C', wt, 'apply', '-C1', '--recount', pf], check=True)
+        out['_note'] = 'applied with reduced context (tree changed since the change was filed)'
     for cid in ids:
         env = dict(os.environ, HAIL_REPO_ROOT=wt, VERIF_EVIDENCE_DIR='/tmp/seeded-evidence', VERIF_SHRINK_S='10')
         p = subprocess.run(['./vcheck', cid, tier], cwd='/verif', env=env, capture_output=True, text=True)
@@ -38,7 +43,10 @@ meta = json.load(open(mp))
 db = meta.get('detected_by')
 if not isinstance(db, dict):
     db = {}
+note = out.pop('_note', None)
+if note:
+    meta['apply_note'] = note
 db.update(out)
 meta['detected_by'] = db
-meta['detected'] = any(v['exit'] == 1 for v in db.values())
+meta['detected'] = any(isinstance(v, dict) and v.get('exit') == 1 for v in db.values())
 json.dump(meta, open(mp, 'w'), indent=1)
